@@ -383,6 +383,10 @@ type Dialer struct {
 }
 
 func (d *Dialer) tryDial() (net.Conn, error) {
+	if c, ok, err := verifDial(d); ok {
+		return c, err
+	}
+
 	if d.TLSConfig == nil || !func() bool {
 		for _, proto := range d.TLSConfig.NextProtos {
 			if proto == "h2" {
